@@ -202,6 +202,7 @@ class Machine:
         self.fault_tags = set()
         self.outcomes = []
         self._pending_retained = []
+        self._deferred = []
 
     # ------------------------------------------------------------ observation
     def dump(self, v, depth=0):
@@ -262,8 +263,17 @@ class Machine:
         e = Entry(sid, schema, probes, origin, hooked=contains_hooked(schema))
         e.witness = witness if have_witness else None
         e.spec = None
-        e.parts = self.observe(e)
-        e.baseline = fast_digest(e.parts)
+        if self.nested:
+            # created from inside a hook, i.e. in the middle of an outer repr/validate/...: observing now
+            # would observe the *outer* call's transient state (e.g. Python's recursive-repr guard prints
+            # "(...)" for a tuple whose repr is in progress up the stack).  Baseline is taken when the
+            # outer operation has returned.
+            e.parts = None
+            e.baseline = None
+            self._deferred.append(e)
+        else:
+            e.parts = self.observe(e)
+            e.baseline = fast_digest(e.parts)
         self.schemas[sid] = e
         if len(self.schemas) > self.MAX_POOL:
             # evict the oldest non-canary entry
@@ -284,6 +294,8 @@ class Machine:
     # ------------------------------------------------------------ invariants
     def check_invariants(self, after):
         for e in list(self.schemas.values()):
+            if e.baseline is None:
+                continue
             parts = self.observe(e)
             if fast_digest(parts) != e.baseline:
                 comp = "?"
@@ -537,6 +549,10 @@ class Machine:
             outcome = ("raise", type(e).__name__)
         for c, role, vid, sn in self._pending_retained:
             self.retain(c, role, vid, sn)
+        for e in self._deferred:
+            e.parts = self.observe(e)
+            e.baseline = fast_digest(e.parts)
+        self._deferred = []
         if hook and CTL.fired:
             self.fault_tags.add("hook:%s" % CTL.fired[0])
             P.probes["hook_fired:%s_in_%s" % CTL.fired] += 1
